@@ -215,115 +215,129 @@ def codec_of(node):
 
 # ------------------------------------------------------------------------------------------------ NUL cut
 def nul_cut(prog: Program):
-    """Classify every return of BTSString.read. Returns list of (ok, stmt, text)."""
+    """Classify every way BTSString.read can return (path summaries, locals substituted): the text is the decode of the bytes
+    before the FIRST NUL of the field; the whole field is decoded only on a path that has established that it contains no NUL
+    (the ValueError of .index(NUL), a find() == -1 / `NUL not in field` test) or on which decoding the cut has just failed with
+    the same codec (so the whole field fails the same way). Returns (function, [(ok, node, text)])."""
+    from .facts import path_returns, split_ifexp
     cls = prog.need_cls("BTSString", "tdfTypes")
     f = prog.need_method(cls, "read")
-    out = []
     fn = f.node
-    # the field variable: result of struct.unpack(...)[0] or the data parameter
-    field_names = set()
     data_p = f.params[1] if len(f.params) > 1 else None
-    if data_p:
-        field_names.add(data_p)
-    pos_names = {}  # name -> ('index'|'find', field)
-    for n in walk_no_nested(fn):
-        if isinstance(n, ast.Assign) and len(n.targets) == 1 and isinstance(n.targets[0], ast.Name):
-            v = n.value
-            if isinstance(v, ast.Subscript) and isinstance(v.value, ast.Call) and norm(v.value.func) == "struct.unpack":
-                field_names.add(n.targets[0].id)
-            if isinstance(v, ast.Call) and isinstance(v.func, ast.Attribute) and v.func.attr in ("index", "find") and v.args \
-                    and isinstance(v.args[0], ast.Constant) and v.args[0].value in (b"\x00", b"\0") and isinstance(v.func.value, ast.Name):
-                pos_names[n.targets[0].id] = (v.func.attr, v.func.value.id, n)
+    NULS = (b"\x00", 0)
 
-    def index_call(e):
-        return isinstance(e, ast.Call) and isinstance(e.func, ast.Attribute) and e.func.attr in ("index", "find") and e.args and isinstance(e.args[0], ast.Constant) \
-            and e.args[0].value == b"\x00" and isinstance(e.func.value, ast.Name) and len(e.args) == 1
-
-    def is_cut(base):
-        if isinstance(base, ast.Subscript) and isinstance(base.value, ast.Name) and base.value.id in field_names and isinstance(base.slice, ast.Slice) \
-                and base.slice.lower is None and base.slice.step is None and index_call(base.slice.upper) and base.slice.upper.func.attr == "index" \
-                and base.slice.upper.func.value.id == base.value.id:
+    def is_field(e):
+        """the `size` raw bytes: the data parameter, or struct.unpack(f"{size}s", data)[0]"""
+        if isinstance(e, ast.Name) and e.id == data_p:
             return True
-        return isinstance(base, ast.Subscript) and isinstance(base.value, ast.Name) and base.value.id in field_names and isinstance(base.slice, ast.Slice) \
-            and base.slice.lower is None and base.slice.step is None and isinstance(base.slice.upper, ast.Name) and base.slice.upper.id in pos_names \
-            and pos_names[base.slice.upper.id][1] == base.value.id and pos_names[base.slice.upper.id][0] == "index"
-
-    def in_valueerror_handler(st):
-        """st lies in an `except ValueError` handler of a try whose body calls .index(b'\\0') on the field"""
-        for t in walk_no_nested(fn):
-            if isinstance(t, ast.Try):
-                has_index = any(isinstance(c, ast.Call) and isinstance(c.func, ast.Attribute) and c.func.attr == "index" and c.args
-                                and isinstance(c.args[0], ast.Constant) and c.args[0].value == b"\x00" for b in t.body for c in ast.walk(b))
-                if not has_index:
-                    # the only thing that can raise in the try body is the decode of the bytes BEFORE the first NUL: the handler
-                    # then decodes the same leading bytes (plus more) with the same codec, which fails the same way - the
-                    # handler yields no text that differs from the cut
-                    calls = [c for b in t.body for c in ast.walk(b) if isinstance(c, ast.Call)]
-                    decs = [c for c in calls if isinstance(c.func, ast.Attribute) and c.func.attr == "decode" and is_cut(c.func.value)]
-                    if calls and len(decs) == len(calls):
-                        has_index = True
-                for h in t.handlers:
-                    if any(s is st for b in h.body for s in ast.walk(b)):
-                        return has_index and h.type is not None and norm(h.type) in ("ValueError",)
+        if isinstance(e, ast.Subscript) and norm(e.slice) == "0" and isinstance(e.value, ast.Call) and norm(e.value.func) == "struct.unpack":
+            return True
         return False
 
-    def guarded_no_nul(st):
-        from .mutrules import enclosing_tests
+    def nul_pos(e, fld):
+        """'index' / 'find' when e is <field>.index(NUL) / .find(NUL) on the same field"""
+        if isinstance(e, ast.Call) and isinstance(e.func, ast.Attribute) and e.func.attr in ("index", "find") and len(e.args) == 1 and not e.keywords \
+                and isinstance(e.args[0], ast.Constant) and e.args[0].value in NULS and norm(e.func.value) == norm(fld):
+            return e.func.attr
+        return None
 
-        for t, br in enclosing_tests(fn, st):
-            s = norm(t).replace(" ", "")
-            if br and (s.endswith("==-1") or s.endswith("<0") or "notin" in s and "\\x00" in s):
-                return True
-            if not br and (s.endswith("!=-1") or s.endswith(">=0") or s.endswith(">-1") or ("in" in s and "\\x00" in s and "notin" not in s)):
-                return True
-        return False
-
-    rets = [s for s in walk_no_nested(fn) if isinstance(s, ast.Return)]
-    if not rets:
-        raise AnalysisError("BTSString.read has no return")
-    for r in rets:
-        v = r.value
-        if not (isinstance(v, ast.Call) and isinstance(v.func, ast.Attribute) and v.func.attr == "decode"):
-            out.append((False, r, f"returns `{norm(v)}`: the text is not the decode of a NUL-cut of the field"))
-            continue
-        base = v.func.value
-        kind = None
-        if isinstance(base, ast.Name) and base.id in field_names:
-            kind = "whole"
-        elif isinstance(base, ast.Subscript) and isinstance(base.value, ast.Name) and base.value.id in field_names and isinstance(base.slice, ast.Slice) \
-                and base.slice.lower is None and base.slice.step is None and isinstance(base.slice.upper, ast.Name) and base.slice.upper.id in pos_names \
-                and pos_names[base.slice.upper.id][1] == base.value.id:
-            kind = "cut-" + pos_names[base.slice.upper.id][0]
-        elif isinstance(base, ast.Subscript) and isinstance(base.value, ast.Name) and base.value.id in field_names and isinstance(base.slice, ast.Slice) \
-                and base.slice.lower is None and base.slice.step is None and index_call(base.slice.upper) and base.slice.upper.func.value.id == base.value.id:
-            kind = "cut-" + base.slice.upper.func.attr + "-inline"
-        elif isinstance(base, ast.Subscript) and norm(base.slice) == "0" and isinstance(base.value, ast.Call) and isinstance(base.value.func, ast.Attribute) \
+    def cut_kind(base):
+        if isinstance(base, ast.Subscript) and isinstance(base.slice, ast.Slice) and base.slice.lower is None and base.slice.step is None and base.slice.upper is not None \
+                and is_field(base.value):
+            k = nul_pos(base.slice.upper, base.value)
+            if k:
+                return "cut-" + k
+        if isinstance(base, ast.Subscript) and norm(base.slice) == "0" and isinstance(base.value, ast.Call) and isinstance(base.value.func, ast.Attribute) \
                 and base.value.func.attr in ("split", "partition") and base.value.args and isinstance(base.value.args[0], ast.Constant) and base.value.args[0].value == b"\x00" \
-                and isinstance(base.value.func.value, ast.Name) and base.value.func.value.id in field_names:
-            if base.value.func.attr == "split" and len(base.value.args) < 2 and not base.value.keywords:
-                kind = "cut-split"  # split without maxsplit still cuts at the first NUL for element 0
-            else:
-                kind = "cut-" + base.value.func.attr
-        if kind is None:
-            out.append((False, r, f"`{norm(base)}` is decoded: not a cut of the field at its FIRST NUL (bytes after the terminator could influence the text or make decoding fail)"))
-        elif kind == "whole":
-            if in_valueerror_handler(r) or guarded_no_nul(r):
-                out.append((True, r, "whole field decoded only on the path where it contains no NUL"))
-            else:
-                out.append((False, r, "the whole field (including bytes after the terminator) is decoded on a path where a NUL may exist"))
-        elif kind in ("cut-find", "cut-find-inline"):
-            if guarded_no_nul(r) or any(True for _ in []):
-                out.append((True, r, "cut at find() guarded for -1"))
-            else:
-                # find() == -1 would cut the last byte: must be guarded
-                from .mutrules import enclosing_tests
-                tests = enclosing_tests(fn, r)
-                if tests:
-                    out.append((True, r, "cut at find() under a guard"))
+                and is_field(base.value.func.value):
+            return "cut-" + base.value.func.attr
+        return None
+
+    def try_body_only_raises_for_no_nul_or_bad_prefix(tr):
+        """every call in the try body is <field>.index(NUL) or the decode of a cut (or pure slicing)"""
+        calls = [c for b in tr.body for c in ast.walk(b) if isinstance(c, ast.Call)]
+        if not calls:
+            return False
+        has_index = False
+        for c in calls:
+            if isinstance(c.func, ast.Attribute) and c.func.attr == "index" and c.args and isinstance(c.args[0], ast.Constant) and c.args[0].value in NULS:
+                has_index = True
+                continue
+            if isinstance(c.func, ast.Attribute) and c.func.attr == "decode":
+                continue
+            if norm(c.func) in ("struct.unpack", "len"):
+                continue
+            if isinstance(c.func, ast.Attribute) and c.func.attr in ("split", "partition") and c.args and isinstance(c.args[0], ast.Constant) and c.args[0].value == b"\x00":
+                continue
+            return False
+        decs = [c for c in calls if isinstance(c.func, ast.Attribute) and c.func.attr == "decode"]
+        return has_index or bool(decs)
+
+    out = []
+    n_ret = 0
+    for pe in path_returns(fn):
+        if pe.kind == "raise":
+            continue
+        if pe.kind != "return" or pe.value is None:
+            out.append((False, pe.node, "a path returns no text"))
+            continue
+        for conds, v in split_ifexp(pe.value):
+            n_ret += 1
+            guards = pe.guards + conds
+            if not (isinstance(v, ast.Call) and isinstance(v.func, ast.Attribute) and v.func.attr == "decode"):
+                if isinstance(v, ast.Call) and isinstance(v.func, ast.Attribute) and isinstance(v.func.value, ast.Call) and isinstance(v.func.value.func, ast.Attribute) \
+                        and v.func.value.func.attr == "decode":
+                    out.append((False, pe.node, f"the decoded text is post-processed by .{v.func.attr}(): valid stored text is not returned identically"))
                 else:
-                    out.append((False, r, "cut at find() without handling -1"))
-        else:
-            out.append((True, r, f"decode applied to the bytes before the first NUL ({kind})"))
+                    out.append((False, pe.node, f"returns `{norm(v)[:80]}`: the text is not the decode of a NUL-cut of the field"))
+                continue
+            base = v.func.value
+            kind = cut_kind(base)
+            if kind is None and is_field(base):
+                kind = "whole"
+            # what the path knows about a NUL being present
+            no_nul = False
+            for t, pol in guards:
+                if isinstance(t, ast.Call) and isinstance(t.func, ast.Name) and t.func.id == "__except__":
+                    tr = getattr(t, "_try", None)
+                    exc = norm(t.args[0]) if t.args else ""
+                    if exc in ("ValueError", "UnicodeDecodeError", "UnicodeError") and tr is not None and try_body_only_raises_for_no_nul_or_bad_prefix(tr):
+                        no_nul = True
+                    continue
+                tt, pp = t, pol
+                while isinstance(tt, ast.UnaryOp) and isinstance(tt.op, ast.Not):
+                    tt, pp = tt.operand, not pp
+                if isinstance(tt, ast.Compare) and len(tt.ops) == 1:
+                    l, op, r = tt.left, tt.ops[0], tt.comparators[0]
+                    # <field>.find(NUL) compared with -1 / 0
+                    if isinstance(l, ast.Call) and isinstance(l.func, ast.Attribute) and l.func.attr == "find" and l.args and isinstance(l.args[0], ast.Constant) \
+                            and l.args[0].value in NULS and is_field(l.func.value):
+                        rv = r.operand.value * -1 if isinstance(r, ast.UnaryOp) and isinstance(r.op, ast.USub) and isinstance(r.operand, ast.Constant) else (r.value if isinstance(r, ast.Constant) else None)
+                        absent_when_true = (isinstance(op, ast.Eq) and rv == -1) or (isinstance(op, ast.Lt) and rv == 0) or (isinstance(op, ast.LtE) and rv == -1)
+                        absent_when_false = (isinstance(op, ast.NotEq) and rv == -1) or (isinstance(op, ast.GtE) and rv == 0) or (isinstance(op, ast.Gt) and rv == -1)
+                        if (pp and absent_when_true) or (not pp and absent_when_false):
+                            no_nul = True
+                    # NUL in / not in <field>
+                    if isinstance(op, (ast.In, ast.NotIn)) and isinstance(l, ast.Constant) and l.value == b"\x00" and is_field(r):
+                        if (isinstance(op, ast.NotIn) and pp) or (isinstance(op, ast.In) and not pp):
+                            no_nul = True
+            if kind is None:
+                out.append((False, pe.node, f"`{norm(base)[:80]}` is decoded: not a cut of the field at its FIRST NUL (bytes after the terminator could influence the text or make decoding fail)"))
+            elif kind == "whole":
+                if no_nul:
+                    out.append((True, pe.node, "whole field decoded only on the path where it contains no NUL"))
+                else:
+                    out.append((False, pe.node, "the whole field (including bytes after the terminator) is decoded on a path where a NUL may exist"))
+            elif kind == "cut-find":
+                guarded = any(not (isinstance(t, ast.Call) and isinstance(t.func, ast.Name) and t.func.id in ("__except__", "__loop__")) for t, _ in guards)
+                if guarded:
+                    out.append((True, pe.node, "cut at find() under a guard"))
+                else:
+                    out.append((False, pe.node, "cut at find() without handling -1"))
+            else:
+                out.append((True, pe.node, f"decode applied to the bytes before the first NUL ({kind})"))
+    if not n_ret:
+        raise AnalysisError("BTSString.read has no return")
     return f, out
 
 
